@@ -311,15 +311,15 @@ fn next_bytes<'s>(
             }
             false
         } else {
-            let (next_state, action) = state_change(State::Ground, b);
-            if next_state != State::Anywhere {
-                *state = next_state;
-            }
-            if *state == State::Utf8 {
-                utf8parser.add(b);
+            let (next_state, action) = state_change(*state, b);
+            if is_printable_bytes(action, b) {
+                if next_state == State::Utf8 {
+                    *state = next_state;
+                    utf8parser.add(b);
+                }
                 false
             } else {
-                !is_printable_bytes(action, b)
+                true
             }
         }
     });
